@@ -131,14 +131,49 @@ def _options(od, addition_type=None, force_dfs=None):
         kw["data_first_search"] = od["data_first_search"]
     if force_dfs is not None:
         kw["data_first_search"] = force_dfs
+    if od.get("alias_generator"):
+        kw["alias_generator"] = GENS[od["alias_generator"]]
+    if od.get("alias_from_generator"):
+        kw["alias_from_generator"] = GENS_FROM[od["alias_from_generator"]]
     return Options(**kw)
 
 
-def classes_of(case):
-    """the declarations of the case in order, and which of them is parsed"""
-    if "classes" in case:
-        return case["classes"], case.get("target", 0)
-    return [case["cls"]], 0
+# Options(alias_generator=...) / Options(alias_from_generator=...): named functions, so that a declaration stays data
+GENS = {"upper": lambda s: s.upper(), "x_": lambda s: "x_" + s}
+GENS_FROM = {"cap": lambda s: s.capitalize(), "y_": lambda s: "y_" + s}
+GEN_KEYS = ("alias_generator", "alias_from_generator")
+
+
+def desugar(classes):
+    """alias generators written out: a field without `alias` gets the generated output name, a field without
+    `alias_from` the generated accepted key (field.md: the Field's own alias / alias_from override the generator) — of the
+    class that DECLARES the field (its own `__options__`, else the first base's).  The adapter builds the real classes
+    from the declarations as written (real callables in Options); the oracle and the model see the written-out form."""
+    out = []
+    for t, cd in enumerate(classes):
+        o, _ = eff_opts(classes, t)
+        g, gf = (o or {}).get("alias_generator"), (o or {}).get("alias_from_generator")
+        cd2 = dict(cd)
+        if g or gf:
+            fs = []
+            for fd in cd["fields"]:
+                fd2 = dict(fd)
+                if g and not fd.get("alias"):
+                    fd2["alias"] = GENS[g](fd["attname"])
+                if gf and not fd.get("alias_from"):
+                    fd2["alias_from"] = [GENS_FROM[gf](fd["attname"])]
+                fs.append(fd2)
+            cd2["fields"] = fs
+        if cd.get("opts"):
+            cd2["opts"] = {k: v for k, v in cd["opts"].items() if k not in GEN_KEYS}
+        out.append(cd2)
+    return out
+
+
+def classes_of(case, raw=False):
+    """the declarations of the case in order (alias generators written out unless `raw`), and which of them is parsed"""
+    cs = case["classes"] if "classes" in case else [case["cls"]]
+    return (cs if raw else desugar(cs)), (case.get("target", 0) if "classes" in case else 0)
 
 
 def eff_opts(classes, t):
@@ -158,6 +193,10 @@ def fkey(fd):
 
 
 def flatten(classes, t):
+    return _flatten(desugar(classes), t)
+
+
+def _flatten(classes, t):
     """the declaration a class amounts to: the fields of its bases (each case-insensitive or not as its declaring
     class says), minus the dropped names, with the fields of its own body replacing those of the same name"""
     cd = classes[t]
@@ -168,7 +207,7 @@ def flatten(classes, t):
     if not (cd.get("bases") or []):
         excl.update(SCHEMA_EXCLUDED)
     for b in reversed(cd.get("bases") or []):
-        fb = flatten(classes, b)
+        fb = _flatten(classes, b)
         for fd in fb["fields"]:
             fields[fkey(fd)] = fd
         ann.update(fb["ann"])
@@ -385,7 +424,7 @@ def impl(case):
                 res["df_all"] = _run_func(cd, data, True, all_errors=True)
                 res["ff_all"] = _run_func(cd, data, False, all_errors=True)
         return res
-    classes, target = classes_of(case)
+    classes, target = classes_of(case, raw=True)
     built = _build_all(classes)
     out, cls = _run(classes, target, built, runtime, data)
     res = {"out": out, "declared": [b[2] for b in built]}
@@ -911,6 +950,10 @@ def gen_opts(rng: random.Random, runtime: bool):
         o["data_first_search"] = rng.choice([True, True, False, None])
     if not runtime and p() < 0.2:
         o["case_insensitive"] = True
+    if not runtime and p() < 0.06:
+        o["alias_generator"] = rng.choice(sorted(GENS))
+    if not runtime and p() < 0.05:
+        o["alias_from_generator"] = rng.choice(sorted(GENS_FROM))
     return o
 
 
@@ -1086,6 +1129,28 @@ def gen_hier_case(rng: random.Random):
             t = base_fields[rng.choice([x for x in range(n0) if x != i])]
             fd["deps"] = [rng.choice([t["attname"], t.get("alias") or t["attname"]] + list(t["alias_from"]))]
     target = 0 if rng.random() < 0.45 else rng.randrange(len(classes))
+    if n0 > 1 and rng.random() < 0.12:
+        # a subclass under which a dependency of the BASE resolves to another field: the name the base field depends on
+        # is dropped and becomes an accepted key of a new field, or is re-declared under another output name (which the
+        # code refuses - after it has been through the fields taken over).  The base must stay what it was.
+        i = rng.randrange(n0)
+        t = base_fields[rng.choice([x for x in range(n0) if x != i])]
+        base_fields[i]["deps"] = [t["attname"]]
+        sub = classes[1]
+        sub["fields"] = [f for f in sub["fields"] if f["attname"] != t["attname"]]
+        if fkey(dict(t, ci=t.get("ci") if t.get("ci") is not None else bool((bopts or {}).get("case_insensitive")))) == t["attname"] \
+                and rng.random() < 0.6:
+            sub["drops"] = [t["attname"]]
+            new = gen_field(rng, 3, 4)
+            new["attname"], new["alias"], new["alias_from"], new["deps"] = "q", None, [t["attname"]], []
+            if field_ok(new):
+                sub["fields"].append(new)
+        else:
+            new = dict(t, alias=rng.choice(["A", "zz", "Q"]), deps=[])
+            sub.pop("drops", None)
+            sub["fields"].append(new)
+        if rng.random() < 0.75:
+            target = 0
     cdt = flatten(classes, target)
     runtime = gen_opts(rng, True) if rng.random() < 0.4 else None
     return {"classes": classes, "target": target, "runtime": runtime, "data": gen_data(rng, cdt, cdt["opts"] or {})}
